@@ -378,8 +378,9 @@ def run(tier, seed, part=None):
             chk.add_explorer(f"at{gen}/backbone/{name}", SPEC, params, res,
                              {"script_events": len(script), "shutdown": "at every turn boundary", "deviations": 1})
         # ... and the same for the handshake backbones with init() called again the moment shutdown() has returned
-        for name, mode in (("handshake+heartbeat+poll", True), ("pending-while-down", True), ("handshake+heartbeat+poll", "before-settle")):
-            script = scripts[name][:8]
+        for name, mode in (("handshake+heartbeat+poll", True), ("pending-while-down", True), ("handshake+heartbeat+poll", "before-settle"),
+                           ("stalled-heartbeat-and-command", True)):
+            script = scripts[name][:8] if not name.startswith("stalled") else scripts[name]
             params = {"gen": gen, "script": script, "max_tick": 99, "prompt_reinit": mode}
             res = explorer.explore(SPEC, params, len(script) + 1, 1, time_cap=cap, seed=seed, label=f"at{gen}/{name}/prompt-reinit/{mode}")
             chk.add_explorer(f"at{gen}/backbone/{name}/prompt-reinit" + ("" if mode is True else "/same-iteration"), SPEC, params, res,
